@@ -160,6 +160,11 @@ func Exec(kind Kind, view interface{}, c Call) (res Result) {
 			res = Result{Panic: p, Stack: ordaFrames(debug.Stack())}
 		}
 	}()
+	// the slice handed to a variadic mutating call is overwritten as soon as the call has returned (and its
+	// result has been copied): a datatype or a queued operation that kept the caller's slice would change
+	// behind the library's back
+	var held []interface{}
+	defer func() { Poison(held) }()
 	switch kind {
 	case Counter:
 		v := view.(orda.CounterInTx)
@@ -182,7 +187,8 @@ func Exec(kind Kind, view interface{}, c Call) (res Result) {
 		case "Size":
 			return Result{Ret: float64(v.Size())}
 		case "Put":
-			r, e := v.Put(c.Key, c.Vals[0].Go())
+			held = goVals(c.Vals[:1])
+			r, e := v.Put(c.Key, held[0])
 			return Result{Ret: Normalize(r), Err: errOf(e), IsNil: r == nil}
 		case "Remove":
 			r, e := v.Remove(c.Key)
@@ -200,13 +206,16 @@ func Exec(kind Kind, view interface{}, c Call) (res Result) {
 			r, e := v.GetMany(c.Pos, c.N)
 			return Result{Ret: Normalize(r), Err: errOf(e), IsNil: r == nil}
 		case "Insert":
-			r, e := v.Insert(c.Pos, c.Vals[0].Go())
+			held = goVals(c.Vals[:1])
+			r, e := v.Insert(c.Pos, held[0])
 			return Result{Ret: Normalize(r), Err: errOf(e), IsNil: r == nil}
 		case "InsertMany":
-			r, e := v.InsertMany(c.Pos, goVals(c.Vals)...)
+			held = goVals(c.Vals)
+			r, e := v.InsertMany(c.Pos, held...)
 			return Result{Ret: Normalize(r), Err: errOf(e), IsNil: r == nil}
 		case "Update":
-			r, e := v.Update(c.Pos, goVals(c.Vals)...)
+			held = goVals(c.Vals)
+			r, e := v.Update(c.Pos, held...)
 			return Result{Ret: Normalize(r), Err: errOf(e), IsNil: r == nil}
 		case "Delete":
 			r, e := v.Delete(c.Pos)
@@ -229,6 +238,7 @@ func Exec(kind Kind, view interface{}, c Call) (res Result) {
 			if len(c.Vals) > 0 {
 				val = c.Vals[0].Go()
 			}
+			held = []interface{}{val}
 			d, e := v.PutToObject(c.Key, val)
 			r, n := docVal(d)
 			return Result{Ret: r, IsNil: n, Err: errOf(e)}
@@ -237,11 +247,13 @@ func Exec(kind Kind, view interface{}, c Call) (res Result) {
 			r, n := docVal(d)
 			return Result{Ret: r, IsNil: n, Err: errOf(e)}
 		case "InsertToArray":
-			d, e := v.InsertToArray(c.Pos, goVals(c.Vals)...)
+			held = goVals(c.Vals)
+			d, e := v.InsertToArray(c.Pos, held...)
 			r, n := docVal(d)
 			return Result{Ret: r, IsNil: n, Err: errOf(e)}
 		case "UpdateManyInArray":
-			ds, e := v.UpdateManyInArray(c.Pos, goVals(c.Vals)...)
+			held = goVals(c.Vals)
+			ds, e := v.UpdateManyInArray(c.Pos, held...)
 			return Result{Ret: docVals(ds), IsNil: ds == nil, Err: errOf(e)}
 		case "DeleteInArray":
 			d, e := v.DeleteInArray(c.Pos)
@@ -503,4 +515,14 @@ func ordaFrames(stack []byte) string {
 		}
 	}
 	return strings.Join(out, " < ")
+}
+
+// Poison overwrites the elements of the slice that was handed to a variadic call (`f(buf...)` passes
+// the caller's slice itself; an application that refills one batch buffer does exactly this). Nested
+// maps / slices / pointer targets inside the values are NOT touched: orda keeps such values by
+// reference in its local state, and whether a caller may modify them afterwards is not specified.
+func Poison(vals []interface{}) {
+	for i := range vals {
+		vals[i] = "\u2620 overwritten by the caller after the call"
+	}
 }
